@@ -13,6 +13,22 @@ COMMON_NOTE = ('Trusted: Coq 8.16.1 kernel (full .vo builds, vm_compute for fini
                'harness and oracles. Axioms: see Print Assumptions output copied into the evidence file.')
 
 CLAIMED = {
+    'C12': dict(
+        text='Theorems C12_layout_quadratic / C12_lookahead_linear (Proofs/Fuel.v: on the classic algebra the main loop '
+             'of the layout machine ends within M+1 iterations and every look-ahead within M+1, M = total size of the '
+             'pending stack, for every width / ribbon / strategy: a strictly decreasing stack measure, induction on the '
+             'fuel), C02_split_total (the string splitter ends within 6 len + 16 iterations for every positive width), '
+             'C12_graph_total (object graphs: heap size + 1), the printers being structurally recursive Gallina '
+             'functions; C12_commented_dict_refuted (the document of n dicts nested through commented values has >= 2^n '
+             'leaves: the one exponential family, an open finding). Tie to interpreter steps: sys.monitoring LINE events '
+             'inside the package for 16 input families at n, 2n, 4n, 8n x 3 configurations (step budget, doubling '
+             'ratio <= 10), and the hit counts of the three triplestack.pop() statements compared for EQUALITY with '
+             'the model\'s cost semantics (Model/Cost.v) on those values and on random documents.',
+        design='5.8 C12', technique='Coq proofs (termination measures / fuel bounds; exponential lower bound witness family) + exact loop-count correspondence + measured step ratios',
+        note=COMMON_NOTE + ' PARTIAL with respect to "interpreter steps": the theorems bound loop iterations of the '
+             'model; the cost of the CPython built-ins executed once per iteration (list.extend, copy(triplestack) - '
+             'linear in the stack -, re.split, repr) and the polynomial bound for the full algebra (fill, align, the '
+             'string evaluator) and for the printers\' document size are covered by the measured ratios only.'),
     'C07': dict(
         text='Theorems C07_timedelta_roundtrip (for every normalised delta, unbounded days: the keywords printed - zero '
              'ones dropped, days split into years*365+days - add up with the constructor\'s weights to exactly the '
